@@ -8,6 +8,13 @@ Streams
           ints, index named 'frame'), payload columns, float-typed frame column, missing frames:
           row/index/value preservation, integer frame, ordering by frame and purity (caller's table
           unchanged) are checked by the direct oracle; the labels again by the monitor.
+          FUNCTION MODE (Model/LinkTable.lean, theorems Props/C01Table): `link_iter` as seen from
+          `link` is wrapped to capture the levels `link` fed to it and the ids it returned; the
+          input rows, the sort permutation observed in the output, the captured levels and ids go
+          to the model (`LTABLE`), which recomputes the levels from the table (`coordsFromDf`) and
+          the labelled output (`linkTable`); levels and final rows are compared exactly.
+  itable: `tp.link_df_iter` on per-frame tables with odd indexes / payload / float frames / empty
+          tables, same function-mode comparison against `linkDfIter` (`LTITER`) + purity.
 """
 import numpy as np
 
@@ -17,8 +24,10 @@ from .common import Result
 PROP = "C01"
 RULE = ("movies: 1-3 D integer lattices, 2-8 (thorough: up to 25) frames, 0-12 (40) features per "
         "frame, empty/missing frames, duplicate positions, exact-range distances, memory 0-3, "
-        "scalar or per-axis search_range, all strategies x 3 entry points; tables: shuffled rows, "
-        "odd indexes, payload columns.  Non-trivial = at least one contested sub-net or one "
+        "scalar or per-axis search_range, all strategies x 3 entry points; tables (link and "
+        "link_df_iter): shuffled rows, odd indexes (strings, duplicates, named 'frame'), payload "
+        "columns, float / non-integral / negative frames, missing frames, single-frame tables, each "
+        "also through the function-mode comparison with Model/LinkTable.lean.  Non-trivial = at least one contested sub-net or one "
         "memory re-link (counted by the monitor), or a table with a non-default index; distinct = "
         "distinct canonical input.")
 ASSUMPTIONS = [
@@ -31,6 +40,12 @@ ASSUMPTIONS = [
     "frames count as elapsed frames (they become empty levels)",
     "'same index' compares index values; pandas_sort's documented renaming of a clashing index "
     "name is not a violation",
+    "table adapters (function mode): index labels and the non-coordinate columns travel to the model "
+    "as integer tokens (equal label <-> equal token); the sort permutation is read off the OUTPUT "
+    "table (unique tag column, else first unused identical row) and only required to be a "
+    "frame-sorted permutation (pandas' default sort is not stable); 'frame coerced to integer' is "
+    "truncation toward zero, as astype(np.int64) does for non-integral float frames; link_iter is "
+    "wrapped (monkeypatched module global, no repo edit) to observe the levels link feeds to it",
 ]
 MIN_NONTRIVIAL = 20
 STRATEGIES = ["recursive", "nonrecursive", "numba", "hybrid", "auto", "drop", None]
@@ -67,7 +82,229 @@ def gen_cases(ctx):
         mv["float_frames"] = rng.random() < 0.4
         mv["payload"] = rng.random() < 0.7
         mv["row_seed"] = rng.randrange(10 ** 6)
+        # extra table shapes for the function-mode comparison (drawn last: older fields unchanged)
+        mv["frac_frames"] = mv["float_frames"] and rng.random() < 0.3
+        if rng.random() < 0.25:
+            mv["t0"] = rng.choice([-1, -3, -6])
+        shape = rng.random()
+        nfr = len(mv["frames"])
+        if shape < 0.12:
+            k = rng.randrange(nfr)
+            mv["frames"] = [pts if j == k else [] for j, pts in enumerate(mv["frames"])]
+            mv["shape"] = "single_frame"
+        elif shape < 0.45 and nfr > 2:
+            for k in rng.sample(range(1, nfr - 1), rng.randint(1, min(2, nfr - 2))):
+                mv["frames"][k] = []
+            mv["shape"] = "missing_frames"
         yield mv
+    m2 = ctx.n(60, 1200)
+    for i in range(m2):
+        rng = ctx.rng("itable", i)
+        mv = linkcommon.gen_movie(rng, thorough=False)
+        mv["stream"] = "itable"
+        mv["entry"] = "link_df_iter"
+        mv["index_kind"] = rng.choice(["range", "shuffled", "strings", "duplicates", "named_frame",
+                                       "named_other"])
+        mv["float_frames"] = rng.random() < 0.4
+        mv["payload"] = rng.random() < 0.7
+        mv["row_seed"] = rng.randrange(10 ** 6)
+        yield mv
+
+
+class _LinkIterSpy:
+    """wraps trackpy.linking.linking.link_iter (module global used by link / link_df_iter) to record
+    the levels it is fed and the ids it yields; no edits to the repo."""
+
+    def __init__(self):
+        self.levels = []
+        self.ids = []
+
+    def __enter__(self):
+        import trackpy.linking.linking as L
+        self.mod = L
+        self.orig = L.link_iter
+        spy = self
+
+        def link_iter(coords_iter, search_range, **kw):
+            def tee():
+                for t, c in coords_iter:
+                    spy.levels.append((t, np.array(c, dtype=float, copy=True)))
+                    yield t, c
+            for t, ids in spy.orig(tee(), search_range, **kw):
+                spy.ids.append([int(i) for i in ids])
+                yield t, ids
+        L.link_iter = link_iter
+        return self
+
+    def __exit__(self, *a):
+        self.mod.link_iter = self.orig
+        return False
+
+
+def _int_pts(arr):
+    """coordinates are integers by construction; returns None if the implementation changed them"""
+    pts = []
+    for row in np.asarray(arr, dtype=float).reshape(len(arr), -1):
+        r = []
+        for v in row:
+            if not np.isfinite(v) or v != round(v):
+                return None
+            r.append(int(round(v)))
+        pts.append(r)
+    return pts
+
+
+def _pts_str(pts, sep):
+    return sep.join(",".join(str(c) for c in p) for p in pts)
+
+
+class _Tokens:
+    """index values and payload tuples -> small integer tokens (first occurrence order)"""
+
+    def __init__(self):
+        self.d = {}
+
+    def __call__(self, key):
+        return self.d.setdefault(key, len(self.d))
+
+
+def _row_fields(df, cols, payload, idx_tok, pay_tok):
+    """per row: (index token, frame as Fraction, coords, payload token)"""
+    from fractions import Fraction
+    out = []
+    masses = df["mass"].values if payload else None
+    tags = df["tag"].values if payload else None
+    cvals = df[cols].values
+    fvals = df["frame"].values
+    for j, ix in enumerate(df.index):
+        pts = _int_pts(cvals[j:j + 1])
+        if pts is None:
+            return None
+        pay = pay_tok((float(masses[j]), str(tags[j]))) if payload else 0
+        out.append((idx_tok((type(ix).__name__, str(ix))), Fraction(float(fvals[j]))
+                    if not isinstance(fvals[j], (int, np.integer)) else Fraction(int(fvals[j])),
+                    pts[0], pay))
+    return out
+
+
+def _row_req(r):
+    return "%d %s %s %d" % (r[0], common.rat_str(r[1]), ",".join(map(str, r[2])), r[3])
+
+
+def table_function_mode(ctx, res, inp, df, out, spy, cols):
+    """LTABLE: model recomputes levels and labelled rows from the input table, the sort permutation
+    seen in the output, and the ids link_iter returned."""
+    import math
+    idx_tok, pay_tok = _Tokens(), _Tokens()
+    rin = _row_fields(df, cols, inp["payload"], idx_tok, pay_tok)
+    rout = _row_fields(out, cols, inp["payload"], idx_tok, pay_tok)
+    if rin is None or rout is None:
+        return          # non-integral coordinates: the oracle has already judged value preservation
+    # --- sort permutation sigma: output position j holds input row sigma[j]
+    pool = {}
+    for i, r in enumerate(rin):
+        key = (r[0], tuple(r[2]), r[3], math.trunc(r[1]))
+        pool.setdefault(key, []).append(i)
+    sigma = []
+    for r in rout:
+        key = (r[0], tuple(r[2]), r[3], math.trunc(r[1]))
+        lst = pool.get(key)
+        if not lst:
+            return      # rows not preserved: already reported by the oracle
+        sigma.append(lst.pop(0))
+    # --- captured levels / ids
+    lv_req, lv_cmp = [], []
+    for t, arr in spy.levels:
+        pts = _int_pts(arr) if len(arr) else []
+        if pts is None or not isinstance(t, (int, np.integer)):
+            res.violation("correspondence-break", "link fed a non-integer level to link_iter",
+                          impl=[repr(t), np.asarray(arr).tolist()], broken="LinkTable.coordsFromDf",
+                          signature=dict(stream="table", what="non-integer level"))
+            return
+        lv_req.append(("%d %s" % (int(t), _pts_str(pts, " "))).strip())
+        lv_cmp.append("%d:%s" % (int(t), _pts_str(pts, "+")))
+    ids_req = " ; ".join(" ".join(map(str, g)) for g in spy.ids)
+    line = "LTABLE %s | %s | %s | %s" % (" ; ".join(_row_req(r) for r in rin),
+                                         " ".join(map(str, sigma)), " ; ".join(lv_req), ids_req)
+    m = common.kv(ctx.ask(line))
+    res.stat("fm_tables")
+    impl_levels = ";".join(lv_cmp)
+    part = [int(v) for v in out["particle"].values]
+    impl_rows = ";".join("%d:%d:%s:%d:%d" % (r[0], int(r[1]), ",".join(map(str, r[2])), r[3], p)
+                         for r, p in zip(rout, part))
+    why = None
+    if m.get("status") != "ok":
+        why = "model says link raises (%s) but it returned a table" % m.get("status")
+        broken = "LinkTable.linkTable"
+    elif m.get("sortperm") != "1":
+        why = "output order is not a frame-sorted permutation of the input rows"
+        broken = "LinkTable.SortPerm"
+    elif m.get("levels") != impl_levels or m.get("lvmatch") != "1":
+        why = "levels fed to link_iter differ from coordsFromDf of the sorted table"
+        broken = "LinkTable.coordsFromDf / coordsFromDf_levels"
+    elif m.get("lencond") != "1":
+        why = "link_iter did not return one id per feature of every level"
+        broken = "LinkTable.linkTable_total_labels (hypothesis)"
+    elif m.get("rows") != impl_rows:
+        why = "labelled rows differ from linkTable (positional write-back)"
+        broken = "LinkTable.linkTable / linkTable_labels_match"
+    if why is not None:
+        res.violation("correspondence-break", why, impl=dict(levels=impl_levels, rows=impl_rows,
+                      ids=spy.ids, sigma=sigma), model=m, broken=broken,
+                      signature=dict(stream="table", what=why.split(" (")[0]))
+        return
+    res.stat("fm_levels", len(lv_cmp))
+    res.stat("fm_empty_levels", sum(1 for _, a in spy.levels if len(a) == 0))
+    res.stat("fm_rows", len(rin))
+    if sigma != sorted(sigma):
+        res.stat("fm_sigma_nonidentity")
+    # is sigma unstable (rows of one frame not in input order)?
+    byf = {}
+    for j, i in enumerate(sigma):
+        byf.setdefault(rout[j][1], []).append(i)
+    if any(v != sorted(v) for v in byf.values()):
+        res.stat("fm_sigma_unstable_within_frame")
+    if any(r[1].denominator != 1 for r in rin):
+        res.stat("fm_nonintegral_frames")
+    if len(lv_cmp) == 1:
+        res.stat("fm_single_level")
+
+
+def coords_direct_mode(ctx, res, inp, df, cols):
+    """coords_from_df called directly on the UNSORTED table (integer frames): the stable argsort /
+    unique / split pipeline against coordsFromDf (theorem coordsFromDf_levels: rows of a frame in
+    table order).  Inside `link` the table is already sorted, which hides the argsort."""
+    from trackpy.linking.utils import coords_from_df
+    d = df.copy()
+    d["frame"] = np.trunc(d["frame"].values.astype(float)).astype(np.int64)
+    idx_tok, pay_tok = _Tokens(), _Tokens()
+    rin = _row_fields(d, cols, inp["payload"], idx_tok, pay_tok)
+    if rin is None:
+        return
+    try:
+        got = [(t, np.array(c, dtype=float)) for t, c in coords_from_df(d, cols, "frame")]
+    except Exception as e:
+        res.violation("correspondence-break", "coords_from_df raised %s on an unsorted table: %s"
+                      % (type(e).__name__, str(e)[:150]), broken="LinkTable.coordsFromDf",
+                      signature=dict(stream="table", what="coords_from_df raised"))
+        return
+    lv_req, lv_cmp = [], []
+    for t, arr in got:
+        pts = _int_pts(arr) if len(arr) else []
+        if pts is None:
+            pts = [[-999999]]
+        lv_req.append(("%d %s" % (int(t), _pts_str(pts, " "))).strip())
+        lv_cmp.append("%d:%s" % (int(t), _pts_str(pts, "+")))
+    line = "LTABLE %s | %s | %s | -" % (" ; ".join(_row_req(r) for r in rin),
+                                        " ".join(map(str, range(len(rin)))), " ; ".join(lv_req))
+    m = common.kv(ctx.ask(line))
+    res.stat("fm_direct_coords_from_df")
+    if m.get("levels") != ";".join(lv_cmp) or m.get("lvmatch") != "1":
+        res.violation("correspondence-break",
+                      "coords_from_df on an unsorted table differs from coordsFromDf (stable order "
+                      "within a frame / one level per integer frame)",
+                      impl=";".join(lv_cmp), model=m, broken="LinkTable.coordsFromDf / coordsFromDf_levels",
+                      signature=dict(stream="table", what="coords_from_df direct"))
 
 
 def run_table_case(ctx, inp):
@@ -90,6 +327,13 @@ def run_table_case(ctx, inp):
     df = pd.DataFrame(rows, columns=cols + ["frame"])
     df["frame"] = df["frame"].astype(float if inp["float_frames"] else int)
     n = len(df)
+    if inp.get("frac_frames"):
+        # non-integral float frames: astype(np.int64) truncates toward zero
+        df["frame"] = df["frame"].values + np.array([rr.choice([0.0, 0.0, 0.25, 0.5, 0.75])
+                                                     for _ in range(n)])
+        res.stat("frac_frames")
+    if inp.get("shape"):
+        res.stat("shape_" + inp["shape"])
     if inp["payload"]:
         df["mass"] = [rr.randrange(1000) / 8.0 for _ in range(n)]
         df["tag"] = ["r%d" % i for i in range(n)]
@@ -111,10 +355,16 @@ def run_table_case(ctx, inp):
         before = df.copy(deep=True)
     else:
         kw["pos_columns"] = cols
+    spy = _LinkIterSpy()
     try:
-        out = tp.link(df, linkcommon.search_range_arg(inp), **kw)
+        with spy:
+            out = tp.link(df, linkcommon.search_range_arg(inp), **kw)
     except SubnetOversizeException:
         res.stat("oversize")
+        return res
+    except Exception as e:      # a valid table: nothing else may be raised
+        res.violation("property-violation", "link raised %s: %s" % (type(e).__name__, str(e)[:200]),
+                      signature=dict(stream="table", what="link raised " + type(e).__name__))
         return res
     res.stat("tables")
     res.stat("index_" + kind)
@@ -156,6 +406,9 @@ def run_table_case(ctx, inp):
         res.violation("property-violation", msg, impl=out.head(20).to_dict(),
                       signature=dict(stream="table", what=msg.split(":")[0]))
         return res
+    # ---- function mode: the adapters against Model/LinkTable.lean
+    table_function_mode(ctx, res, inp, df, out, spy, cols)
+    coords_direct_mode(ctx, res, inp, df, cols)
     # ---- labels valid (monitor)
     fr = out["frame"].values
     levels = []
@@ -177,7 +430,129 @@ def run_table_case(ctx, inp):
     return res
 
 
+def run_itable_case(ctx, inp):
+    """tp.link_df_iter on per-frame tables: oracle (rows of every yielded table = the given table +
+    particle column; caller's tables untouched) and function mode against linkDfIter (LTITER)."""
+    import random
+    from fractions import Fraction
+    import pandas as pd
+    import trackpy as tp
+    from trackpy.linking.utils import SubnetOversizeException
+    res = Result()
+    dim = inp["dim"]
+    cols = {1: ["x"], 2: ["y", "x"], 3: ["z", "y", "x"]}[dim]
+    rr = random.Random(inp["row_seed"])
+    kind = inp["index_kind"]
+    dfs = []
+    tagc = 0
+    for k, pts in enumerate(inp["frames"]):
+        a = np.array(pts, dtype=float).reshape(len(pts), dim)
+        df = pd.DataFrame(a, columns=cols)
+        n = len(df)
+        df["frame"] = np.full(n, inp["t0"] + k, dtype=float if inp["float_frames"] else int)
+        if inp["payload"]:
+            df["mass"] = [rr.randrange(1000) / 8.0 for _ in range(n)]
+            df["tag"] = ["r%d" % (tagc + i) for i in range(n)]
+            tagc += n
+        if kind == "shuffled":
+            idx = list(range(100, 100 + n)); rr.shuffle(idx); df.index = idx
+        elif kind == "strings":
+            df.index = pd.Index(["id%03d" % i for i in rr.sample(range(1000), n)], dtype=object)
+        elif kind == "duplicates":
+            df.index = [rr.randrange(max(1, n // 2)) for _ in range(n)]
+        elif kind == "named_frame":
+            df.index = pd.Index(df["frame"].values.copy(), name="frame")
+        elif kind == "named_other":
+            df.index = pd.Index(range(n), name="feature_id")
+        dfs.append(df)
+    before = [d.copy(deep=True) for d in dfs]
+    spy = _LinkIterSpy()
+    outs = []
+    try:
+        with spy:
+            for o in tp.link_df_iter(iter(dfs), linkcommon.search_range_arg(inp), pos_columns=cols,
+                                     memory=inp["memory"]):
+                outs.append(o)
+    except SubnetOversizeException:
+        res.stat("oversize")
+        return res
+    except Exception as e:
+        res.violation("property-violation", "link_df_iter raised %s: %s" % (type(e).__name__, str(e)[:200]),
+                      signature=dict(stream="itable", what="link_df_iter raised " + type(e).__name__))
+        return res
+    res.stat("itables")
+    res.stat("index_" + kind)
+    res.nontrivial = kind != "range" or inp["payload"]
+    # ---- purity
+    for d, b in zip(dfs, before):
+        try:
+            pd.testing.assert_frame_equal(d, b, check_names=True)
+            assert d.index.name == b.index.name
+        except AssertionError as e:
+            res.violation("property-violation", "a caller's frame table was modified by link_df_iter: "
+                          + str(e)[:300], signature=dict(stream="itable", what="caller-table-modified"))
+            return res
+    # ---- oracle: every yielded table is the given one plus the particle column
+    msg = None
+    if len(outs) != len(dfs):
+        msg = "yielded %d tables for %d given" % (len(outs), len(dfs))
+    else:
+        for k, (o, b) in enumerate(zip(outs, before)):
+            if list(o.columns) != list(b.columns) + ["particle"]:
+                msg = "columns changed: %s" % list(o.columns)
+            elif o is dfs[k]:
+                msg = "yielded table is the caller's object"
+            else:
+                try:
+                    pd.testing.assert_frame_equal(o.drop(columns="particle"), b, check_names=True)
+                except AssertionError as e:
+                    msg = "rows of a yielded table are not the given rows: " + str(e)[:200]
+                if msg is None and len(o) and not (np.issubdtype(o["particle"].dtype, np.integer)
+                                                   and (o["particle"].values >= 0).all()):
+                    msg = "labels are not non-negative integers"
+                if msg is None and len(set(o["particle"].values)) != len(o):
+                    msg = "label used twice in one frame"
+            if msg is not None:
+                break
+    if msg is not None:
+        res.violation("property-violation", msg, signature=dict(stream="itable", what=msg.split(":")[0]))
+        return res
+    # ---- function mode (LTITER)
+    idx_tok, pay_tok = _Tokens(), _Tokens()
+    tabs_in = [_row_fields(d, cols, inp["payload"], idx_tok, pay_tok) for d in dfs]
+    tabs_out = [_row_fields(o, cols, inp["payload"], idx_tok, pay_tok) for o in outs]
+    lv_cmp = []
+    for t, arr in spy.levels:
+        pts = _int_pts(arr) if len(arr) else []
+        ts = "n" if t is None else common.rat_str(Fraction(float(t)))
+        lv_cmp.append("%s:%s" % (ts, _pts_str(pts, "+")))
+    ids_req = " ; ".join(" ".join(map(str, g)) for g in spy.ids) if spy.ids else "-"
+    line = "LTITER %s | %s" % (" # ".join(" ; ".join(_row_req(r) for r in t) for t in tabs_in), ids_req)
+    m = common.kv(ctx.ask(line))
+    impl_tabs = "#".join(";".join("%d:%s:%s:%d:%d" % (r[0], common.rat_str(r[1]),
+                                                      ",".join(map(str, r[2])), r[3], int(p))
+                                  for r, p in zip(t, o["particle"].values))
+                         for t, o in zip(tabs_out, outs))
+    why = None
+    if m.get("status") != "ok":
+        why, broken = "model says link_df_iter raises but it did not", "LinkTable.linkDfIter"
+    elif m.get("levels") != ";".join(lv_cmp):
+        why, broken = "levels fed to link_iter differ from coordsFromDfIter", "LinkTable.coordsFromDfIter"
+    elif m.get("tables") != (impl_tabs if impl_tabs else "-"):
+        why, broken = "yielded tables differ from linkDfIter (positional labels)", "LinkTable.linkDfIter"
+    if why is not None:
+        res.violation("correspondence-break", why, impl=dict(levels=lv_cmp, tables=impl_tabs, ids=spy.ids),
+                      model=m, broken=broken, signature=dict(stream="itable", what=why))
+        return res
+    res.stat("fm_itables")
+    res.stat("fm_iter_levels", len(lv_cmp))
+    res.stat("fm_iter_empty_tables", sum(1 for t in tabs_in if not t))
+    return res
+
+
 def run_case(ctx, inp):
     if inp.get("stream") == "table":
         return run_table_case(ctx, inp)
+    if inp.get("stream") == "itable":
+        return run_itable_case(ctx, inp)
     return linkcommon.run_movie_case(ctx, inp, want=("valid",), prop="C01")
